@@ -279,7 +279,7 @@ Proof.
         -- split; [reflexivity|]. unfold grel_after. cbn. now repeat split.
     + right. rewrite <- Hrest. replace (blen (rd_rest HO rd) <? 64) with true by (symmetry; apply N.ltb_lt; exact Hlt).
       split; [reflexivity|]. unfold grel_after. cbn. repeat split; try assumption. discriminate.
-  - destruct (exact_cases HO (tokio_read_bytes_exact HO) rd size k kind (tokio_read_bytes_exact_spec HO rd size Hok) Hf)
+  - destruct (exact_cases HO (tokio_read_bytes_exact HO) rd size k kind (tokio_read_bytes_exact_spec HO rd size Hok Hni) Hf)
       as (x & rd' & Er & Hf' & Hs' & [(Hx & Hc') | [(Hc' & Hle & Hx & Hr') | (Hc' & Hlt & Hx)]]); rewrite Er; subst x;
       pose proof (no_intr_suffix HO rd rd' Hs' Hni) as Hni'.
     + left. exists (CLeaf start size is_root rs), (mkRR HO iter1 stack rd'). cbn [rr_iter rr_rd rr_stack read_err]. now repeat split.
@@ -316,7 +316,7 @@ Proof.
   - unfold tokio_read_bytes_exact, rx_fuel. cbn [take_read_to_end].
     replace (size =? 0) with false by (symmetry; apply N.eqb_neq; lia).
     destruct (rd_read_fail HO (rr_rd HO st) size kind Ef) as (s' & _ & Hr). rewrite Hr.
-    eexists _, _. split; [destruct kind; try reflexivity; now elim Hk|]. cbn [rd_calls rd_rest]. rewrite Hc. now repeat split.
+    eexists _, _. split; [reflexivity|]. cbn [rd_calls rd_rest]. rewrite Hc. now repeat split.
 Qed.
 
 Definition gres_rel (k : N) (x : list item * outcome * rstate_r HO) (y : list item * outcome * rstate HO) : Prop :=
